@@ -133,7 +133,7 @@ func TestC35(t *testing.T) {
 		"Oracle: model of sequential verified advance. Non-trivial: a notification that advanced by >= 2 serials or stopped at a defective / unavailable serial.")
 	defer rec.Flush(t)
 	rec.Assume("the remote returns only TRCs with the requested id (the production gRPC fetcher rejects others)", "TRC update verification itself is C32's subject")
-	rec.Require("advance_1", "advance_multi", "stopped_unavailable", "stopped_missing_signature", "stopped_trust_reset_flipped", "stopped_vote_by_root", "stale_notification", "current_notification", "other_base", "retry_after_fix", "load_future_ignored", "load_stored", "load_already_present", "periodic_loader_repeated")
+	rec.Require("advance_1", "advance_multi", "stopped_unavailable", "stopped_missing_signature", "stopped_trust_reset_flipped", "stopped_vote_by_root", "stale_notification", "current_notification", "other_base", "retry_after_fix", "load_future_ignored", "load_stored", "load_already_present", "periodic_loader_repeated", "inserted_out_of_order", "only_latest_at_start", "history_loaded_after_latest")
 	w := c35Setup()
 	rapid.Check(t, func(rt *rapid.T) {
 		ctx := context.Background()
@@ -143,17 +143,37 @@ func TestC35(t *testing.T) {
 		}
 		defer db.Close()
 		L := rapid.IntRange(1, 3).Draw(rt, "initial")
+		have := map[int]bool{}
+		// the initial content: serials 1..L in order, in any order, or only the latest one (a node
+		// bootstrapped with the current TRC whose history arrives later from disk)
+		initial := []int{}
 		for s := 1; s <= L; s++ {
+			initial = append(initial, s)
+		}
+		labels := map[string]bool{}
+		switch rapid.IntRange(0, 2).Draw(rt, "initialMode") {
+		case 1:
+			initial = rapid.Permutation(initial).Draw(rt, "initialOrder")
+			if L > 1 && initial[0] != 1 {
+				labels["inserted_out_of_order"] = true
+			}
+		case 2:
+			initial = []int{L}
+			if L > 1 {
+				labels["only_latest_at_start"] = true
+			}
+		}
+		for _, s := range initial {
 			if _, err := db.InsertTRC(ctx, w.good[s]); err != nil {
 				rt.Fatalf("harness: %v", err)
 			}
+			have[s] = true
 		}
 		f := &c35Fetcher{serve: map[int]string{}, w: w}
 		for s := 2; s <= 7; s++ {
 			f.serve[s] = rapid.SampledFrom([]string{"good", "good", "good", "good", "", "missing_signature", "trust_reset_flipped", "vote_by_root"}).Draw(rt, "serve")
 		}
 		prov := trust.FetchingProvider{DB: db, Recurser: c34Allow{}, Fetcher: f}
-		labels := map[string]bool{}
 		var history []string
 		nontrivial := false
 		failedBefore := false
@@ -163,9 +183,9 @@ func TestC35(t *testing.T) {
 				if err != nil {
 					rt.Fatalf("harness: reading TRC %d: %v", s, err)
 				}
-				if s <= L {
+				if have[s] {
 					if got.IsZero() {
-						rt.Fatalf("after %s: TRC serial %d is missing although the store had advanced to %d (%v)", what, s, L, history)
+						rt.Fatalf("after %s: TRC serial %d is missing although it was stored (latest %d) (%v)", what, s, L, history)
 					}
 					if !bytes.Equal(got.Raw, w.good[s].Raw) {
 						rt.Fatalf("after %s: stored TRC serial %d is not the verified successor (%v)", what, s, history)
@@ -231,6 +251,7 @@ func TestC35(t *testing.T) {
 							break
 						}
 						L = n
+						have[n] = true
 					}
 				}
 				err := prov.NotifyTRC(ctx, cppki.TRCID{ISD: addr.ISD(isdID), Base: scrypto.Version(base), Serial: scrypto.Version(s)}, trust.Server(&net.UDPAddr{IP: net.IPv4(10, 0, 0, 1), Port: 30252}))
@@ -280,6 +301,11 @@ func TestC35(t *testing.T) {
 					write(fmt.Sprintf("next%d.trc", next), w.good[next], rapid.Bool().Draw(rt, "pem2"))
 				}
 				write("old.trc", w.good[1], false)
+				loadedOld := !have[1]
+				have[1] = true
+				if loadedOld {
+					labels["history_loaded_after_latest"] = true
+				}
 				var res trust.LoadResult
 				var err error
 				periodic := rapid.Bool().Draw(rt, "periodicLoader")
@@ -304,6 +330,7 @@ func TestC35(t *testing.T) {
 				labels["load_already_present"] = true
 				if loadNext {
 					L = next
+					have[next] = true
 					labels["load_stored"] = true
 				}
 				history = append(history, fmt.Sprintf("load dir (next=%v) -> latest %d", loadNext, L))
